@@ -18,6 +18,7 @@ import (
 	"github.com/ucan-wg/go-ucan/pkg/command"
 	"github.com/ucan-wg/go-ucan/pkg/meta"
 	"github.com/ucan-wg/go-ucan/pkg/policy"
+	"github.com/ucan-wg/go-ucan/pkg/policy/limits"
 	"github.com/ucan-wg/go-ucan/token/internal/nonce"
 	"github.com/ucan-wg/go-ucan/token/internal/parse"
 )
@@ -174,6 +175,16 @@ func (t *Token) validate() error {
 
 	if len(t.nonce) < 12 {
 		errs = errors.Join(errs, fmt.Errorf("token nonce too small"))
+	}
+
+	// timestamps are 53-bits integers on the wire: what cannot be read
+	// back must not be accepted here
+	if t.notBefore != nil && (t.notBefore.Unix() > limits.MaxInt53 || t.notBefore.Unix() < limits.MinInt53) {
+		errs = errors.Join(errs, fmt.Errorf("NotBefore exceeds safe integer bounds: %d", t.notBefore.Unix()))
+	}
+
+	if t.expiration != nil && (t.expiration.Unix() > limits.MaxInt53 || t.expiration.Unix() < limits.MinInt53) {
+		errs = errors.Join(errs, fmt.Errorf("Expiration exceeds safe integer bounds: %d", t.expiration.Unix()))
 	}
 
 	return errs
